@@ -12,7 +12,7 @@ Steps (all in a scratch git worktree of /repo under /tmp, removed afterwards; /r
 """
 import json, os, shutil, subprocess, sys, time
 
-V = '/verif'
+V = os.environ.get('VERIF_HOME', '/verif')
 src = os.path.abspath(sys.argv[1])
 args = sys.argv[2:]
 tier = 'quick'
